@@ -236,7 +236,10 @@ def r5_finalize_order(cx):
         ok = not any(i in after for i, _ in wc) and all(b.dominates(fz[0][0], i) for i, _ in sc)
         # the addresses written are the ones returned by the join
         cl = [c for c in F.closures_of(f) if "blocks" in c and F.body(c).calls(r"SizedOffset as .*Serializable>::serialize$")]
-        caps = [s for blk in b.blocks for s in blk["s"] if s["k"] == "assign" and s["rv"]["k"] == "agg" and cl and s["rv"].get("closure_fn") == cl[0]["id"]]
+        top = cl[0] if cl else None
+        while top is not None and top.get("parent") is not None and top["parent"] != f["id"] and F.fns[top["parent"]].get("kind") == "closure":
+            top = F.fns[top["parent"]]      # `|ser| table.iter().try_for_each(|a| a.serialize(ser))`: the closure finalize builds
+        caps = [s for blk in b.blocks for s in blk["s"] if s["k"] == "assign" and s["rv"]["k"] == "agg" and top is not None and s["rv"].get("closure_fn") == top["id"]]
         ok = ok and len(caps) == 1 and any(any(x == ("call", fz[0][0]) for x in b.origins(fo)) for fo in caps[0]["rv"]["fields"])
         # each slot is flushed unless empty: the write_cluster calls are guarded by is_empty only
         for i, t in wc:
